@@ -241,7 +241,9 @@ def r7d(prog, rep):
     group = [g for g in prog.product_fns() if g.file == p.file and not mir.is_testsupport(g.name)]
     pos_table = [g for g in group if any(POS_TABLE.search(t) for t in g.ty.values())]
     n = c18.index_stability(prog, rep, 'R7d', only_prefix='portfolio::io::tx_csv::', also_types=POS_TABLE)
-    if n < (1 if pos_table else 2):
+    n_cells = len([1 for g in group + [h for g0 in group for h in prog.closures_of(g0)] for c in g.calls
+                   if c.decl.endswith('Iterator::enumerate') and re.search(r'csv::StringRecordIter', g.ty.get(c.arg_local(0), '') or '')])
+    if n < (1 if pos_table else 2) and n_cells < 2:
         rep.violation('R7d', 'anchor-lost:enumerate-sites', fn=p.name, detail='anchor lost: expected enumerate() over the header row and over each record (found %d)' % n)
     # the header text is normalised before the column-name lookup
     lookups = [c for c in p.calls if c.short in ('get', 'contains', 'contains_key', 'get_key_value') and
@@ -265,8 +267,10 @@ def r7d(prog, rep):
     ins = [c for c in p.calls if c.short == 'insert' and re.search(r'HashMap<usize, ', p.ty.get(c.arg_local(0), ''))]
     gets = [c for c in p.calls if c.short in ('get', 'index') and re.search(r'HashMap<usize, ', p.ty.get(c.arg_local(0), ''))]
     if ins and gets:
-        oi = mir.provenance(p, ins[0].args[1], follow_all_call_args=True)
-        og = mir.provenance(p, gets[0].args[1], follow_all_call_args=True)
+        # from the use back to the enumerate() that produced the index, and no further (what the row iterator itself derives from —
+        # e.g. an error closure capturing `row_num = i + 2` — is not arithmetic on the column index)
+        oi = mir.provenance(p, ins[0].args[1], pass_through=c18.ITER_PASS, stop_calls=r'Iterator::enumerate$')
+        og = mir.provenance(p, gets[0].args[1], pass_through=c18.ITER_PASS, stop_calls=r'Iterator::enumerate$')
         if oi.has_call(r'Iterator::enumerate$') and og.has_call(r'Iterator::enumerate$') and not oi.binops and not og.binops:
             rep.ok('R7d', 'portfolio::io::tx_csv::parse_tx_csv|same-index-stored-and-fetched', fn=p.name, where=gets[0].where(),
                    detail='the column map is keyed by the enumerate index of the header row and queried with the enumerate index of the record, both unmodified')
@@ -276,7 +280,66 @@ def r7d(prog, rep):
     elif pos_table:
         r7d_positional_table(prog, rep, p, group)
     else:
-        rep.violation('R7d', 'anchor-lost:column-index-map', fn=p.name, detail='anchor lost: column index -> name map in parse_tx_csv')
+        r7d_index_values(prog, rep, p, group)
+
+
+ARITH = {'Add', 'Sub', 'Mul', 'Div', 'Rem', 'Shl', 'Shr', 'BitAnd', 'BitOr', 'BitXor', 'AddWithOverflow', 'SubWithOverflow', 'MulWithOverflow',
+         'AddUnchecked', 'SubUnchecked', 'MulUnchecked'}
+
+
+def r7d_index_values(prog, rep, p, group):
+    """whatever holds the header positions (here: a record with an `index` field compared with the cell's position): the position of a
+    header cell and the position of a record cell are the plain enumerate() values — stored and compared, never computed with"""
+    k = 'portfolio::io::tx_csv::parse_tx_csv|same-index-stored-and-fetched'
+    fns = list(group) + [h for g in group for h in prog.closures_of(g) if h not in group]
+
+    def cell_enumerates(g):
+        return [c for c in g.calls if c.decl.endswith('Iterator::enumerate') and re.search(r'csv::StringRecordIter', g.ty.get(c.arg_local(0), '') or '')]
+    enums = [(g, c) for g in fns for c in cell_enumerates(g)]
+    hdr = [(g, c) for (g, c) in enums if mir.provenance(g, c.args[0], follow_all_call_args=True).has_call(r'::headers$')]
+    rec = [(g, c) for (g, c) in enums if (g, c) not in hdr]
+    if not hdr or not rec:
+        rep.violation('R7d', 'anchor-lost:column-index-map', fn=p.name,
+                      detail='anchor lost: enumerate() over the header cells and over the cells of a record (%d / %d found)' % (len(hdr), len(rec)))
+        return
+    bad = None
+    stored = fetched = False
+    for g in fns:
+        own = {c.bb for c in cell_enumerates(g)}
+        for b in g.blocks.values():
+            for st in b['stmts']:
+                r = st['r']
+                if r['rv'] == 'binop' and (r['op'] in ARITH or r['op'] in ('Eq', 'Ne', 'Lt', 'Le', 'Gt', 'Ge')):
+                    for o in r['ops']:
+                        if not is_place(o):
+                            continue
+                        org = mir.provenance(g, o, pass_through=c18.ITER_PASS | {'find', 'position'})
+                        idx_src = [x for x in org.calls if x.bb in own]
+                        if g.kind == 'Closure' and not idx_src and (org.upvars or (org.params - {1})):
+                            # an index captured by / handed to a closure (`find(|c| c.index == i)`)
+                            f2, cs2 = mir.origins_with_captures(prog, prog.owner_of(g), g, o)
+                            idx_src = [x for x in cs2 if (x.decl.endswith('Iterator::enumerate') or x.short == 'next') and
+                                       re.search(r'csv::StringRecordIter', x.fn.ty.get(x.arg_local(0), '') or '')]
+                        if not idx_src:
+                            continue
+                        if r['op'] in ARITH:
+                            bad = bad or (g, st, r['op'])
+                        else:
+                            fetched = True
+                if r['rv'] == 'agg' and r['kind'].startswith('adt:portfolio::io::tx_csv'):
+                    for o in r['ops']:
+                        if is_place(o) and any(x.bb in own for x in mir.provenance(g, o, pass_through=c18.ITER_PASS).calls):
+                            stored = True
+    if bad:
+        g, st, op = bad
+        rep.violation('R7d', k, fn=g.name, where=g.where(st),
+                      detail='a column position taken from enumerate() over the cells is changed by arithmetic (%s) before it is stored / compared' % op)
+    elif stored and fetched:
+        rep.ok('R7d', k, fn=p.name, where='%s:%d' % (p.file, p.line),
+               detail='header positions are stored as they come from enumerate() and compared, unchanged, with the enumerate() position of each record cell')
+    else:
+        rep.violation('R7d', 'anchor-lost:column-index-map', fn=p.name,
+                      detail='anchor lost: where the header position is stored (%s) / where a record cell position is matched against it (%s)' % (stored, fetched))
 
 
 POS_TABLE = re.compile(r"(std::vec::Vec<|\[)std::option::Option<&('\w+ )?str>")
